@@ -478,6 +478,19 @@ func oracleC10(cx *CheckCtx, runs []*CaseRun) []Finding {
 // recording writer (the path the effect model is compared on) are the reference; every concrete
 // writer type must end up holding exactly <what it held before> + <those bytes on success,
 // nothing on failure>.
+// richFailWriter: a failWriter with the optional methods of common writers, all succeeding
+type richFailWriter struct {
+	failWriter
+	flushed, closed, synced int
+}
+
+func (w *richFailWriter) Flush() error { w.flushed++; return nil }
+func (w *richFailWriter) Close() error { w.closed++; return nil }
+func (w *richFailWriter) Sync() error  { w.synced++; return nil }
+func (w *richFailWriter) WriteString(x string) (int, error) {
+	return w.Write([]byte(x))
+}
+
 func writerKinds(cx *CheckCtx, cr *CaseRun, ci int, o Op, tmp string) []Finding {
 	var fs []Finding
 	prep := func() (rl *Real, ok bool) {
@@ -557,6 +570,29 @@ func writerKinds(cx *CheckCtx, cr *CaseRun, ci int, o Op, tmp string) []Finding 
 	}()
 	if len(fs) > 0 {
 		return fs
+	}
+	// a failing writer that ALSO offers the optional methods writers commonly have (Flush, Close,
+	// Sync, WriteString), all of which succeed: the outcome must be the one of the plain failing
+	// writer — an error of Write is not forgotten because something else went well afterwards
+	for _, variant := range variants {
+		rl, ok := prep()
+		if !ok {
+			return fs
+		}
+		plain := &failWriter{failAt: 1}
+		classPlain := into(rl, variant, plain)
+		rl, ok = prep()
+		if !ok {
+			return fs
+		}
+		cx.Stats.OracleCases++
+		rich := &richFailWriter{failWriter: failWriter{failAt: 1}}
+		classRich := into(rl, variant, rich)
+		if classRich != classPlain {
+			fs = append(fs, Finding{Property: "C10", Shape: "error-swallowed", What: fmt.Sprintf("%v (%s) into a writer whose first Write fails: outcome %s, but %s when the same writer also has Flush/Close/Sync/WriteString methods that succeed (flushed %d, closed %d, synced %d)", o.Kind, variant, classPlain, classRich, rich.flushed, rich.closed, rich.synced),
+				Case: cr.Case.Text(), Expected: classPlain, Observed: classRich})
+			return fs
+		}
 	}
 	for _, variant := range variants {
 		rl, ok := prep()
